@@ -391,12 +391,51 @@ def flatten_any(v):
     return [v]
 
 
+SHEET_NAMES = ["It's", 'a-b', 'P&L', 'x,y', 'a(b)', 'a;b', '50%', 'a=b', 'a+b', "O'Brien", 'Sheet 1', '2024', '\u00e9', 'a b!c', 'A1', 'a.b', 'x_y', "a'b c", '#1', 'a<b>']
+
+
+def work_sheetnames(job):
+    """an array formula on a sheet whose name needs quoting inside a formula: the range, every member cell and a formula
+    on another sheet that reads a member all show the elements"""
+    acc = Acc()
+    for name in SHEET_NAMES:
+        q = "'" + name.replace("'", "''") + "'"
+        spec = {'sheets': {name: {'A1': 1, 'A2': 2, 'C1:D2': {'array': '=A1:A2*2'}, 'F1': '=D2+1'},
+                           'Other': {'A1': f'={q}!C1+{q}!D2', 'A2': f'=SUM({q}!C1:D2)'}}, 'active': name}
+        want = {f'{name}!C1:D2': ((2, 2), (4, 4)), f'{name}!C1': 2, f'{name}!D1': 2, f'{name}!C2': 4, f'{name}!D2': 4, f'{name}!F1': 5,
+                'Other!A1': 6, 'Other!A2': 12}
+        for order in (list(want), list(want)[::-1]):
+            try:
+                m = W.compile_inmem(spec)
+            except Exception as exc:
+                acc.violation(dict(kind='sheetname', sheet=name, verdict='build-raised', exc=type(exc).__name__),
+                              f'workbook with an array formula on sheet {name!r} does not compile: {type(exc).__name__}: {str(exc)[:120]}')
+                break
+            for a in order:
+                acc.add('evaluations')
+                acc.add('states')
+                acc.add('distinct_nontrivial')
+                try:
+                    got = m.evaluate(a)
+                except Exception as exc:
+                    acc.violation(dict(kind='sheetname', sheet=name, addr=a, verdict='raised', exc=type(exc).__name__),
+                                  f'sheet {name!r}: evaluate({a!r}) raised {type(exc).__name__}: {str(exc).strip().splitlines()[-1][:120]} '
+                                  f'({{=A1:A2*2}} entered over C1:D2)')
+                    continue
+                if not W.veq(got, want[a]):
+                    acc.violation(dict(kind='sheetname', sheet=name, addr=a, verdict='wrong-element', observed=jsonable(got), expected=jsonable(want[a])),
+                                  f'sheet {name!r}: evaluate({a!r}) = {got!r}, expected {want[a]!r}')
+    acc.counts['transitions'] = acc.counts.get('evaluations', 0)
+    return acc.result()
+
+
 def run(ctx):
     m = 64
     ctx.pmap(work_ctx, [((k + ctx.seed) % m, m, ctx.thorough) for k in range(m)], timeout=12000)
     ctx.pmap(work_workbook, [(k, 32) for k in range(32)], timeout=6000)
     ctx.pmap(work_typemix, [(k, 32) for k in range(32)], timeout=6000)
     ctx.pmap(work_computed_ref, [(0,)], timeout=1200)
+    ctx.pmap(work_sheetnames, [(0,), (1,)], timeout=600)
     ctx.counts['traces_validated_against_impl'] = ctx.counts.get('evaluations', 0)
     ctx.extra['shapes'] = len(SHAPES)
     ctx.extra['operators'] = OPS
@@ -404,6 +443,10 @@ def run(ctx):
 
 
 def replay(case):
+    if case['kind'] == 'sheetname':
+        r = work_sheetnames((0,))
+        hits = [m for c, m in r['violations'] if c.get('sheet') == case.get('sheet') and c.get('addr') == case.get('addr')]
+        return bool(hits), '\n'.join(hits[:2]) or 'no violation'
     if case['kind'] == 'typemix':
         r = work_typemix((0, 1))
         hits = [m for c, m in r['violations'] if c.get('formula') == case.get('formula') and c.get('values') == case.get('values')
